@@ -62,6 +62,7 @@ let run_script (type s) (step : s -> sev -> s) (init : s) (crashed : s -> bool)
   let g = ref [] in
   let acc = ref "-" in
   let gseen = ref 0 in
+  let clock = ref 0 in
   let verify = ref "" in
   let xcheck = ref "" in
   let ev e = st := step !st e in
@@ -72,18 +73,18 @@ let run_script (type s) (step : s -> sev -> s) (init : s) (crashed : s -> bool)
     end in
   Stdlib.List.iter (fun tok ->
       let (head, hx) = split_tok tok in
-      let data = if hx = "" || head.[0] = 'V' || head.[0] = 'X' || head.[0] = 'C' then [] else bytes_of_hex hx in
+      let data = if hx = "" || head.[0] = 'V' || head.[0] = 'X' || head.[0] = 'C' || head.[0] = 'T' then [] else bytes_of_hex hx in
       match head.[0] with
       | 'G' ->
-        ensure 0; ev (Data (n_of_int 0, n0, data));
+        ensure 0; ev (Data (n_of_int 0, n_of_int !clock, data));
         let all = seen 0 !st in
         let fresh = Stdlib.List.filteri (fun i _ -> i >= !gseen) all in
         g := !g @ [if fresh = [] then "none" else hex_of_bytes fresh];
         gseen := Stdlib.List.length all
-      | 'S' -> ensure 0; ev (Data (n_of_int 0, n0, data))
+      | 'S' -> ensure 0; ev (Data (n_of_int 0, n_of_int !clock, data))
       | 'C' ->
         ensure 0;
-        Stdlib.List.iter (fun piece -> ev (Data (n_of_int 0, n0, bytes_of_hex piece))) (String.split_on_char ',' hx)
+        Stdlib.List.iter (fun piece -> ev (Data (n_of_int 0, n_of_int !clock, bytes_of_hex piece))) (String.split_on_char ',' hx)
       | 'X' ->
         (* the last os.WriteFile to this path decides what is on disk *)
         let (ph, ch) = split_tok hx in
@@ -103,20 +104,21 @@ let run_script (type s) (step : s -> sev -> s) (init : s) (crashed : s -> bool)
         ev (Close (n_of_int 0));
         verify := if Stdlib.List.exists (fun (p, c) -> p = path && c = content) (saved 0 !st) then "1" else "0"
       | 'A' ->
-        ev (Connect (n_of_int 99)); ev (Data (n_of_int 99, n0, data));
+        ev (Connect (n_of_int 99)); ev (Data (n_of_int 99, n_of_int !clock, data));
         let r = seen 99 !st in
         acc := (if r = [] then "none" else hex_of_bytes r);
         ev (Close (n_of_int 99))
       | 'W' -> ()
+      | 'T' -> clock := !clock + int_of_string hx
       | 'O' -> ensure (conn_of head)
       | 'D' ->
         (* the JT808 reader reads at most 1023 bytes at a time: a longer write is several reads *)
         let k = conn_of head in ensure k;
         let rec feed l =
           if is808 && Stdlib.List.length l > 1023 then begin
-            ev (Data (n_of_int k, n0, Stdlib.List.filteri (fun i _ -> i < 1023) l));
+            ev (Data (n_of_int k, n_of_int !clock, Stdlib.List.filteri (fun i _ -> i < 1023) l));
             feed (Stdlib.List.filteri (fun i _ -> i >= 1023) l)
-          end else ev (Data (n_of_int k, n0, l)) in
+          end else ev (Data (n_of_int k, n_of_int !clock, l)) in
         feed data
       | 'F' | 'R' ->
         (* RST: the server's writes fail from now on and its Read fails; FIN: its Read returns EOF *)
@@ -127,7 +129,7 @@ let run_script (type s) (step : s -> sev -> s) (init : s) (crashed : s -> bool)
         end
       | 'P' | 'Q' ->
         let k = conn_of head in
-        ensure k; ev (Data (n_of_int k, n0, data));
+        ensure k; ev (Data (n_of_int k, n_of_int !clock, data));
         let r = seen k !st in
         let ser = frame_serial data in
         if is808 then begin
@@ -149,7 +151,30 @@ let run_script (type s) (step : s -> sev -> s) (init : s) (crashed : s -> bool)
   if !xcheck <> "" then Buffer.add_string buf (" x=" ^ !xcheck);
   Buffer.contents buf
 
+(* parse808age f:<hex> | a:<ms> ...  : packageParse.parse with checked indexing (Server.parse_chk) on one parser, the
+   clock advanced by a:<ms> (service.VerifParser.Age on the Go side); per read: delivered messages, error flag; panic *)
+let parse_age (toks : string list) : string =
+  let st = ref Subpkg.pst0 in
+  let now = ref 0 in
+  let out = ref [] in
+  let dead = ref false in
+  Stdlib.List.iter (fun tok ->
+      if not !dead then begin
+        let (head, arg) = split_tok tok in
+        match head with
+        | "a" -> now := !now + int_of_string arg
+        | "f" ->
+          (match parse_chk (n_of_int !now) !st (bytes_of_hex arg) with
+           | Ok ((st', msgs), err) ->
+             st := st';
+             out := !out @ [Printf.sprintf "n=%d,e=%d" (Stdlib.List.length msgs) (match err with Some _ -> 1 | None -> 0)]
+           | _ -> out := !out @ ["panic"]; dead := true)
+        | _ -> ()
+      end) toks;
+  "ok " ^ String.concat " " !out
+
 let init () =
+  register "parse808age" parse_age;
   register "contain808" (fun a -> match a with
     | pa :: toks ->
       let parse_all = (pa = "1") in
